@@ -813,7 +813,12 @@ def m_recover(hist, rec):
             elig = elig[:10]
         want = sum(int(p["amount"]["amount"]) for p in elig)
         denoms = {p["amount"]["denom"] for p in elig}
-        gone = all(p["sequence"] not in after_ids or p["sequence"] == max(after_ids) for p in elig)
+        # each re-sent packet is gone afterwards -- unless the new transfer was assigned the very sequence number of one
+        # of them (possible after the counterparty re-numbered the channel): then that key holds the new, Sent, packet
+        after_by = {p["sequence"]: p for p in inflight(a)}
+        gone = all(p["sequence"] not in after_ids
+                   or (after_by[p["sequence"]]["status"] == "sent" and int(after_by[p["sequence"]]["amount"]["amount"]) == want)
+                   for p in elig)
         if (t["coin"]["amount"] != want or t["receiver"] != recv or denoms != {t["coin"]["denom"]} or not gone
                 or any(p["status"] == "sent" for p in elig)):
             report(hist, "C07", "recover_spec", {"branch": "unforced"},
